@@ -795,6 +795,32 @@ func diagFlowsInto(x, d ssa.Value, seen map[ssa.Value]bool) bool {
 		}
 	case *ssa.ChangeType:
 		return diagFlowsInto(x, y.X, seen)
+	case *ssa.UnOp:
+		// the diagnostics live in a cell (captured by a closure): a store that is made before
+		// this load on every path and contains x
+		if al, ok := y.X.(*ssa.Alloc); ok && y.Op == token.MUL {
+			for _, r := range *al.Referrers() {
+				st, ok := r.(*ssa.Store)
+				if !ok || st.Addr != ssa.Value(al) {
+					continue
+				}
+				before := st.Block() != y.Block() && st.Block().Dominates(y.Block())
+				if st.Block() == y.Block() {
+					for _, ins := range y.Block().Instrs {
+						if ins == ssa.Instruction(st) {
+							before = true
+							break
+						}
+						if ins == ssa.Instruction(y) {
+							break
+						}
+					}
+				}
+				if before && diagFlowsInto(x, st.Val, seen) {
+					return true
+				}
+			}
+		}
 	}
 	return false
 }
